@@ -338,3 +338,5 @@ def run(ctx):
     # the builders work on smt::lin / rational values (differences, scaling, the sharing key): what a relation literal means rests on the exactness
     # of that arithmetic (C15), evaluated here under its own rule ids
     ctx.include('C15')
+    # ... and what a literal means when it is true / false is the bound that lra_theory::propagate asserts for it (C09.R3 and the rest of that pack)
+    ctx.include('C09')
